@@ -639,7 +639,13 @@ func (sp *subProcess) NextAction(ctx context.Context, flow Flow) chan IAction {
 	}
 
 	response := make(chan IAction, 1)
-	sp.mch <- nextActionMessage{response: response}
+	select {
+	case sp.mch <- nextActionMessage{response: response}:
+	case <-ctx.Done():
+		// the node's loop has ended with its context and the inbox is full (more tokens
+		// than it holds arrived since): the flow, which watches the same context, gets a
+		// channel on which no action ever arrives
+	}
 	return response
 }
 
